@@ -32,16 +32,38 @@ package sqlx
 // (or the pointer) of the value's field at the SAME index i, and the map entry binds exactly these two.
 //@ func getTaggedFieldValueMap
 //@   prop C11
-//@   opaque Deref, parseTagName
+//@   opaque Deref, parseTagName, embeddedStruct, getTaggedFieldValueMap
+//@   replay sqlx_embedded_tags
 //@   let key = ret(parseTagName)
+//@   let innerMap = ret(getTaggedFieldValueMap, 0)
 //@   loop 1 entry [starts-at-zero] i == 0
 //@   loop 1 invariant 0 <= i && fresh(result)
 //@   loop 1 iteration-ensures [tag-of-the-same-field] calls(parseTagName) == 1 && calls(rt.Field) == 1 && arg(rt.Field, 0) == at_head(i) && arg(parseTagName, 0) == ret(rt.Field)
 //@   loop 1 iteration-ensures [value-of-the-same-field] calls(reflect.Indirect, v) == 1 && arg(ret(reflect.Indirect).Field, 1) == at_head(i)
-//@   loop 1 iteration-ensures [bound-by-name] has(result, key) && (calls(Addr) == 2 ==> result[key] == ret(ret(Addr, 0, 2).Interface)) && (calls(Addr) == 0 ==> result[key] == ret(valueField.Interface))
+//@   loop 1 iteration-ensures [bound-by-name] len(key) > 0 ==> has(result, key) && (calls(Addr) == 2 ==> result[key] == ret(ret(Addr, 0, 2).Interface)) && (calls(Addr) == 0 ==> result[key] == ret(local(valueField).Interface)) && calls(embeddedStruct) == 0
+// an untagged field that is an embedded struct does not by itself switch the whole mapping to "by position": the
+// embedded struct's own tagged fields are bound by name as well (its map is merged in), so columns reach them
+// whatever their order; only an untagged leaf (or an embedded struct without tags) means positional mapping
+//@   loop 1 iteration-ensures [embedded-struct-asked] len(key) == 0 ==> calls(embeddedStruct) == 1 && arg(embeddedStruct, 0) == ret(rt.Field) && arg(embeddedStruct, 1) == ret(ret(reflect.Indirect).Field)
+//@   loop 1 iteration-ensures [embedded-struct-descended] len(key) == 0 ==> ret(embeddedStruct, 1) && calls(getTaggedFieldValueMap) == 1 && arg(getTaggedFieldValueMap, 0) == ret(embeddedStruct, 0)
+//@   loop 1 iteration-ensures [embedded-struct-read-without-error] len(key) == 0 ==> ret(getTaggedFieldValueMap, 1) == nil
+//@   loop 2 invariant forallk(k, string, visited(inner, k) ==> has(result, k) && result[k] == inner[k]) && fresh(result)
+//@   loop 1 iteration-ensures [embedded-map-merged] len(key) == 0 ==> forallk(k, string, has(innerMap, k) ==> has(result, k) && result[k] == innerMap[k])
 //@   loop 1 iteration-ensures [next] i == at_head(i) + 1
 //@   ensures [type-of-the-value] calls(Deref) >= 1 && arg(Deref, 0, 1) == ret(v.Type)
-//@   ensures [untagged-field-means-positional] result1 == nil || result1 == ErrNotReadableValue
+//@   ensures [untagged-field-means-positional] result1 == nil || result1 == ErrNotReadableValue || tail(result1 == ret(getTaggedFieldValueMap, 1))
+//@   ensures [positional-only-for-an-untagged-leaf-or-tagless-embedded-struct] result0 == nil && result1 == nil ==> tail(calls(parseTagName) == 1 && len(ret(parseTagName)) == 0 && calls(embeddedStruct) == 1 && (!ret(embeddedStruct, 1) || (calls(getTaggedFieldValueMap) == 1 && len(ret(getTaggedFieldValueMap, 0)) == 0)))
+
+// embeddedStruct: exactly the anonymous fields of struct type (or non-nil pointer to struct) are descended into,
+// and the value handed on is the struct itself.
+//@ func embeddedStruct
+//@   prop C11
+//@   opaque Deref
+//@   let isStruct = calls(Deref) == 1 && ret(ret(Deref).Kind) == 25
+//@   ensures [only-anonymous-structs] result1 ==> field.Anonymous && isStruct
+//@   ensures [struct-value-descended] field.Anonymous && isStruct && ret(value.Kind) != 22 ==> result1 && result0 == value
+//@   ensures [non-nil-pointer-followed] field.Anonymous && isStruct && ret(value.Kind) == 22 && !ret(value.IsNil) ==> result1 && result0 == ret(value.Elem)
+//@   ensures [nil-pointer-not-descended] field.Anonymous && isStruct && ret(value.Kind) == 22 && ret(value.IsNil) ==> !result1
 
 // With tags: column i gets the destination tagged with its name, whatever the column order; unknown columns get a throw-away.
 //@ func mapStructFieldsIntoSlice
